@@ -134,6 +134,13 @@ def typeTable : List (String × String × List String × List String) :=
    ("TextHashValue", "VALUE_TEXT_HASH", ["WriteInt"], ["ReadInt"]),
    ("TextValue", "VALUE_TEXT", ["WriteText"], ["ReadText"])]
 
+/-- package-level `var`s of the two packages the codec lives in: the shared null value, nothing else -/
+def codecPkgVars : List (String × List String) := [("lang/value", ["NULL_VALUE"]), ("io", [])]
+
+/-- the only function of those packages whose body mentions a package-level var, and it only reads it -/
+def codecStateRefs : List (String × String × String × String) :=
+  [("lang/value", "NewNullValue", "r", "NULL_VALUE")]
+
 /-- `WriteValue` / `ReadValue`: the calls in source order -/
 def writeValueCalls : List String := ["WriteByte", "GetValueType", "Write"]
 def readValueCalls : List String := ["ReadByte", "CreateValue", "Read"]
